@@ -15,7 +15,8 @@ try:
     m=dict(m[0]) if m else {}
     m['property']=m.get('property') or mm.get('property')
 except Exception as e: m={"error":str(e)}
-m['kind']="small classic mutant"
+import os
+m["kind"]=os.environ.get("KIND","small classic mutant")
 m["confirmed_by_me"]=conf
 m["what_i_ran"]=["tools/confirm_mutant.sh %s %s  (demo without the mutant / demo with it / existing suite with it)"%(wt,k), "tools/try_seed.sh patch.diff <property>"]
 m["check_result"]=res
